@@ -34,7 +34,9 @@ type ColdB struct {
 	A ColdA
 }
 
-func coldValueA() *ColdA { return &ColdA{Id: 7, Name: "cold", Tags: []string{"t1", "t2"}, Next: &ColdA{Id: 8}} }
+func coldValueA() *ColdA {
+	return &ColdA{Id: 7, Name: "cold", Tags: []string{"t1", "t2"}, Next: &ColdA{Id: 8}}
+}
 func coldValueB() *ColdB { return &ColdB{X: 1 << 40, A: ColdA{Id: 9, Name: "b"}} }
 
 func coldMaps() (map[string]string, map[string]interface{}) {
